@@ -519,6 +519,12 @@ func judgeC08(e *Env, c *C08Case, tag string, run int64) (*c08Obs, *procsim.Outc
 			if (f == "json" || f == "jsonl" || f == "json-pretty") && !jsonStreamOK(out.Stdout) {
 				viol("incomplete-output-with-exit-0", "stdout does not decode as a JSON stream")
 			}
+			if (f == "yaml" || f == "yml") && !yamlStreamOK(out.Stdout) {
+				viol("incomplete-output-with-exit-0", "stdout does not decode as a YAML stream")
+			}
+			// TOML is not decoded: bkl prints a top-level list or scalar as
+			// "TOML" text that no TOML decoder accepts ("[]", "'x'") — a format
+			// round-trip matter (C05, not claimed), not an incomplete output
 		default:
 			if out.Stdout != "" {
 				viol("output-with-nonzero-status", "")
@@ -529,6 +535,19 @@ func judgeC08(e *Env, c *C08Case, tag string, run int64) (*c08Obs, *procsim.Outc
 		return nil
 	})
 	return obs, out, err
+}
+
+var streamSep = regexp.MustCompile(`(?m)^---$`)
+
+// yamlStreamOK decodes what a tool printed with an independent decoder (documents separated by lines holding only ---).
+func yamlStreamOK(s string) bool {
+	for _, part := range streamSep.Split(s, -1) {
+		var v any
+		if err := yaml.Unmarshal([]byte(part), &v); err != nil {
+			return false
+		}
+	}
+	return true
 }
 
 // dropOutFlag removes "-o file" and pins the format the file would have had.
